@@ -509,5 +509,7 @@ def run(ctx, F):
     ctx.run_rule("C03-R3", "substituting each handler path's next row / helper values into every stack transition constraint restricted to that operation gives the zero polynomial", r3_substitution, F, M)
     ctx.run_rule("C03-R4", "helper registers read by an operation's constraints are written by its handler; exactly prefix-100 operations request range checks", r4_helpers, F, M)
     ctx.run_rule("C03-R5", "decoder trace append methods push once per column on every path", r5_decoder_rows, F)
+    from . import rules_c12
+    ctx.run_rule("C03-R7", "RangeChecker::add_range_checks counts every value once and records all values of a row, also when the row already has lookups (the b_range column of an honest trace must return to 1)", rules_c12.r5_range_conservation, F)
     ctx.run_rule("C03-R6b", "chiplet rows = hasher + bitwise + memory + kernel ROM + one padding row; component starts are the cumulative sums", r6b_chiplet_rows, F)
     ctx.run_rule("C03-R6", "trace length = next_power_of_two(max(range rows, clk, chiplet rows) + NUM_RAND_ROWS), independent of capacity hints", r6_trace_len, F)
